@@ -46,8 +46,9 @@ claim("C19",
 
 claim("C06",
       "Bounded symbolic model check of reply correlation in the real core: DeliverOwnedFrame/RouteReply on an inbound frame with a fully symbolic header against two open transactions with arbitrary system bytes (own reply -> exactly its channel, primary -> every handler once in order, unsolicited -> handlers, duplicate discarded, Reject.req -> RejectError with the peer's reason), "
-      "and the real SendDataMessage/SendSECS2Message/WriteMessage over sendWaitReply under virtual time for 9 scripted peer behaviours at write time: the result is exactly one of own secondary / RejectError / T3 (not earlier than T3) / connection-closed / ctx error, never (nil,nil), the key is deregistered on every exit. System-bytes uniqueness for all counter pairs.",
-      "Trusted: executor + cooperative scheduler/virtual time, xsync.MapOf model, model transport, z3. Outside: truly parallel senders and register/route races, real timers.")
+      "and the real SendDataMessage/SendSECS2Message/WriteMessage over sendWaitReply under virtual time for 9 scripted peer behaviours at write time: the result is exactly one of own secondary / RejectError / T3 (not earlier than T3) / connection-closed / ctx error, never (nil,nil), the key is deregistered on every exit. RaceVT places the peer's reply / reject, a generation end and the caller's cancel (one or two of them, back to back) at an ARBITRARY instant of one W-bit send "
+      "(one preemption before each of <=160 call instructions, bound checked): one documented outcome, a reply reaches exactly one recipient, an answer arriving after the write always reaches the sender. System-bytes uniqueness for all counter pairs.",
+      "Trusted: executor + cooperative scheduler/virtual time with one harness-placed preemption, xsync.MapOf model, model transport, z3. Outside: several senders at once, more than one preemption, real timers.")
 
 claim("C07",
       "Bounded symbolic model check of the data gate: every data-sending entry point x every FSM state x epoch present/absent x a state flip in the gate-to-write window -> no transport write, ErrNotSelectedState/ErrNotOpen, exactly one drop counted, nothing enqueued or registered; control traffic unaffected; "
@@ -56,12 +57,14 @@ claim("C07",
 
 claim("C09",
       "Bounded symbolic model check of generation binding: after generation 1 ended (3 ways) and generation 2 was published, a stale synchronous writeFrame or the drain loop (every ready-set choice) never reaches the transport with generation 2's socket and queued frames are discarded; "
-      "a W-bit send waiting on generation 1 is not completed by a same-system-bytes reply arriving on generation 2 and ends promptly with the connection-closed error.",
-      "Trusted: executor + cooperative scheduler, z3. Outside: 'every instant' (generation end placed between the listed calls), real sockets, the lifecycle code that creates generations (C10/C11).")
+      "a W-bit send waiting on generation 1 is not completed by a same-system-bytes reply arriving on generation 2 and ends promptly with the connection-closed error; a pooled reply channel never carries a reply into a later generation. RaceVT moves the generation switch (3 ending orders, successor published, reply delivered on the successor) "
+      "to an ARBITRARY instant of one send of each kind (one preemption before each of <=200 call instructions, bound checked): the frame goes out at most once, never on generation 2 while registered or queued on generation 1.",
+      "Trusted: executor + cooperative scheduler with one harness-placed preemption, z3. Outside: more than one preemption / several senders, real sockets, the secs1 transport, the lifecycle code that creates generations (C10/C11).")
 
 claim("C20",
-      "Bounded symbolic model check of per-operation accounting: for each send outcome (reply, peer reject, T3, disconnect, cancel, refused B1, refused B2, write error, fire-and-forget, forward, control) the delta of every counter equals the documented table, the in-flight gauge returns to its entry value, is never negative, is 0 before the write and 1 while waiting; the async drain counts one send per written frame or one async error per failed write; DeliverOwnedFrame counts one receive per data frame.",
-      "Trusted: executor + models, z3. Outside: equality with a real peer's counts under concurrent histories; quiescence under real scheduling.")
+      "Bounded symbolic model check of per-operation accounting: for each send outcome (reply, peer reject, T3, disconnect, cancel, refused B1, refused B2, write error, fire-and-forget, forward, control) the delta of every counter equals the documented table, the in-flight gauge returns to its entry value, is never negative, is 0 before the write and 1 while waiting; the async drain counts one send per written frame or one async error per failed write; DeliverOwnedFrame counts one receive per data frame. "
+      "Two concurrent reply-expected sends with independent outcomes and one preemption at each of <=320 call instructions: the gauge is never negative nor above the number of open sends, and the counters add up. Two overlapping reconnect loops: the reconnecting gauge stays positive while either runs.",
+      "Trusted: executor + models + cooperative scheduler with one harness-placed preemption, z3. Outside: equality with a real peer's counts under larger concurrent histories; quiescence under real scheduling; secs1 counters.")
 
 claim("C05",
       "Bounded exhaustive exploration, by the symbolic executor, of the interleavings between the supervisor's serial step() and the synchronous commits on the real code: all histories of 4 API actions with interference inside the load-to-write window of every processed event, plus ONE step from an arbitrary supervisor state (inductive). "
@@ -75,10 +78,12 @@ claim("C11",
       "Trusted: executor + virtual time, model transport, z3 (FP tactic). Outside: real sockets/listeners, end-to-end re-selection after recovery, multipliers off the grid / T5 > 18 min, SECS-I.")
 
 claim("C10",
-      "NARROW claim: bounded exploration, by the symbolic executor with a cooperative scheduler and virtual time, of SEQUENTIAL Open/Close call histories (length 3, thorough 4) on the real lifecycle code against three peer behaviours, plus a wedged-teardown Close and drop-then-Close: "
-      "double Open -> ErrAlreadyOpen with no side effects, Close before Open -> ErrNotOpen, re-Close idempotent (retained result, no side effects), after Close State()==NotConnected, every library goroutine finished, no socket left, no dial ever again, reopen gets a fresh supervisor and selects like a first open, Close bounded by the close timeout (ErrCloseTimeout when the join is wedged). "
-      "The concurrent-mix, real-I/O and wall-clock sub-claims of the property are NOT covered (listed as outside in the evidence).",
-      "Trusted: executor + ONE deterministic schedule per history, virtual time (natively testing/synctest, 24 vectors cross-validated), model transport. Outside/N-A: concurrent Open/Close/send/config mixes, real sockets/listeners, latency under real scheduling, SECS-I.")
+      "NARROW claim: bounded exploration, by the symbolic executor with a cooperative scheduler and virtual time, of (a) SEQUENTIAL Open/Close call histories (length 3, thorough 4) on the real lifecycle code against three peer behaviours, plus a wedged-teardown Close and drop-then-Close: "
+      "double Open -> ErrAlreadyOpen with no side effects, Close before Open -> ErrNotOpen, re-Close idempotent (retained result, no side effects), after Close State()==NotConnected, every library goroutine finished, no socket left, no dial ever again, reopen gets a fresh supervisor and selects like a first open, Close bounded by the close timeout (ErrCloseTimeout when the join is wedged); "
+      "(b) TWO CONCURRENT callers from each lifecycle state, each making one call from {Open, Close, fire-and-forget send} (thorough: + reply-expected send, UpdateConfigOptions), with ONE preemption before each of <=400 (thorough <=1600) call instructions executed by the callers and the library's goroutines (bound checked): "
+      "no panic, no deadlock, the Open/Close results are those of one of the two serial orders, nothing is left running after a final Close. "
+      "Larger concurrent mixes, real I/O and wall-clock sub-claims are NOT covered (listed as outside in the evidence).",
+      "Trusted: executor + cooperative scheduler (one schedule per sequential history; one preemption per concurrent pair), virtual time (natively testing/synctest), model transport. Outside/N-A: three or more concurrent callers, more than one preemption, real sockets/listeners, latency under real scheduling, SECS-I.")
 
 claim("C17",
       "Bounded symbolic model check of SECS-I blocking: the real splitFrame/appendTo output for every boundary body length against a literal E4 block layout (length byte, R/device, W/stream, function, E/block number 1..N, system bytes, <=244 body bytes, 16-bit checksum), parse + reassembly by the opposite role delivering the message byte-identically exactly once; "
